@@ -225,11 +225,23 @@ fn parse_pattern_nosubst<L: Language>(
         tok = &tok[1..];
 
         let mut syntax_elems = vec![NestedSyntaxElem::String(op.to_string())];
+        // positions (in syntax_elems) of arguments written as a bare identifier: such an argument is either a nullary
+        // child (`(app f x)`) or a payload of this very node (`(call f x)` for `Call(Symbol, AppliedId)`)
+        let mut bare: Vec<(usize, String)> = Vec::new();
         loop {
             match tok.get(0) {
                 Some(Token::RParen) => break,
                 Some(_) => {}
                 None => return Err(ParseError::ParseState(to_vec(tok))),
+            }
+
+            if let (Some(Token::Ident(id)), Some(nxt)) = (tok.get(0), tok.get(1)) {
+                if !matches!(nxt, Token::LBracket) {
+                    bare.push((syntax_elems.len(), id.to_string()));
+                    syntax_elems.push(NestedSyntaxElem::String(id.to_string()));
+                    tok = &tok[1..];
+                    continue;
+                }
             }
 
             let (se, tok2) = parse_nested_syntax_elem(tok)?;
@@ -238,25 +250,58 @@ fn parse_pattern_nosubst<L: Language>(
         }
         tok = &tok[1..];
 
-        let syntax_elems_mock: Vec<_> = syntax_elems
-            .iter()
-            .map(|x| match x {
-                NestedSyntaxElem::String(s) => SyntaxElem::String(s.clone()),
-                NestedSyntaxElem::Slot(s) => SyntaxElem::Slot(*s),
-                NestedSyntaxElem::Pattern(_) => SyntaxElem::AppliedId(AppliedId::null()),
-            })
-            .collect();
-        let node = L::from_syntax(&syntax_elems_mock)
-            .ok_or_else(|| ParseError::FromSyntaxFailed(syntax_elems_mock.clone()))?;
-        // from_syntax ignores surplus arguments, we don't.
-        if node.to_syntax().len() != syntax_elems_mock.len() {
-            return Err(ParseError::FromSyntaxFailed(syntax_elems_mock));
+        // every bare identifier is read as a child first (as before); only if the operator does not take that, the
+        // alternatives in which some of them are payloads of the node are tried, fewest payloads first
+        if bare.len() > 8 {
+            return Err(ParseError::ParseState(to_vec(tok)));
         }
+        let mut masks: Vec<u32> = (0..(1u32 << bare.len())).collect();
+        masks.sort_by_key(|m| m.count_ones());
+        let mut found = None;
+        let mut first_err = None;
+        'masks: for mask in masks {
+            let mut mock = Vec::new();
+            let mut leaves: Vec<(usize, L)> = Vec::new();
+            for (i, x) in syntax_elems.iter().enumerate() {
+                mock.push(match x {
+                    NestedSyntaxElem::String(s) => match bare.iter().position(|(j, _)| *j == i) {
+                        Some(b) if mask >> b & 1 == 0 => {
+                            let elems = [SyntaxElem::String(s.clone())];
+                            match L::from_syntax(&elems) {
+                                Some(leaf) => leaves.push((i, leaf)),
+                                None => {
+                                    first_err.get_or_insert(ParseError::FromSyntaxFailed(to_vec(&elems)));
+                                    continue 'masks;
+                                }
+                            }
+                            SyntaxElem::AppliedId(AppliedId::null())
+                        }
+                        _ => SyntaxElem::String(s.clone()),
+                    },
+                    NestedSyntaxElem::Slot(s) => SyntaxElem::Slot(*s),
+                    NestedSyntaxElem::Pattern(_) => SyntaxElem::AppliedId(AppliedId::null()),
+                });
+            }
+            // from_syntax ignores surplus arguments, we don't.
+            match L::from_syntax(&mock) {
+                Some(node) if node.to_syntax().len() == mock.len() => {
+                    found = Some((node, leaves));
+                    break;
+                }
+                _ => {
+                    first_err.get_or_insert(ParseError::FromSyntaxFailed(mock));
+                }
+            }
+        }
+        let Some((node, leaves)) = found else {
+            return Err(first_err.unwrap());
+        };
         let syntax_elems = syntax_elems
             .into_iter()
-            .filter_map(|x| match x {
+            .enumerate()
+            .filter_map(|(i, x)| match x {
                 NestedSyntaxElem::Pattern(pat) => Some(pat),
-                NestedSyntaxElem::String(_) => None,
+                NestedSyntaxElem::String(_) => leaves.iter().find(|(j, _)| *j == i).map(|(_, leaf)| Pattern::ENode(leaf.clone(), Vec::new())),
                 NestedSyntaxElem::Slot(_) => None,
             })
             .collect();
